@@ -6,6 +6,8 @@ ALL = ["C%02d" % i for i in range(1, 21)]
 BASE_OFF = "cd /repo && env -u ASCMHL_VERIF /venv/bin/python -m pytest -ra -q -p no:cacheprovider --timeout=900 --continue-on-collection-errors"
 T = "in-process CliRunner on tmpfs as accelerator, every alarm re-run in one fresh subprocess per command; CPython, hashlib, xxhash, lxml/libxml2 trusted; bounds and alphabets as listed in the evidence file"
 CHECKS = {
+ "C01": ("E2", "exploration", "bounded-exhaustive enumeration of the finite product lengths x contents x format sets x entry points on the real code",
+         "The only length-dependent code paths are the two 1 MiB read loops; every length class around that boundary, three content families (incl. one that differs in every MiB), every subset of the seven formats in both orders and every entry point (library one-shot / streaming / multi-format, CLI hash, create, verify) are executed and compared with one-shot hashlib/xxhash digests; the C4 text codec is driven with a stub hasher over a structured family of 512-bit values covering every digit length.", "4 C01"),
  "C19": ("E1", "model_checking", "explicit-state BFS on the real code with info / info -sf evaluated as invariants in every state",
          "In every state of two explorations (multi-generation histories with changing formats, failed entries, partial generations; nested chains and prefix-named siblings) info ROOT is compared with the generations and creation dates of every history, and info -sf (with and without root) of every recorded file with the digests recorded in its nearest enclosing history, all read by the independent reader.", "4 C19"),
  "C18": ("E1", "model_checking", "explicit-state BFS over flat histories on the real code; flatten + verify -pl evaluated as an invariant in every state",
